@@ -384,14 +384,14 @@ def run(ctx):
     maxlines, maxsym = ctx.pick((3, 2), (3, 3))
     alphabet = ctx.pick(["DOT", "X"], ["DOT", "X"])
     for cs in small_bodies(maxlines, maxsym, alphabet):
-        for chunk in (1, 2, 3, 4, 0):
+        for chunk in ctx.pick((1, 2, 3, 0), (1, 2, 3, 4, 5, 0)):
             body = concretise(rng, cs)
             cfg = mk_cfg(rng, "client")
             cfg["chunkmode"] = "attr"
             traces.append(run_case(cfg, body, [chunk] if chunk else [], random_cuts(rng, 3 * len(body) + 5)))
     ctx.exhaustive = True
-    ctx.extra["exhaustive_bodies"] = "all bodies of <= %d lines x <= %d symbols over %s, read sizes 1..4 and unbounded" % (maxlines, maxsym, alphabet)
-    for _ in range(ctx.pick(1200, 40000)):
+    ctx.extra["exhaustive_bodies"] = "all bodies of <= %d lines x <= %d symbols over %s, read sizes %s (0 = unbounded)" % (maxlines, maxsym, alphabet, ctx.pick("1,2,3,0", "1..5,0"))
+    for _ in range(ctx.pick(500, 15000)):
         body = concretise(rng, random_body(rng))
         cfg = mk_cfg(rng, "client")
         if cfg["chunkmode"] == "attr":
@@ -399,14 +399,14 @@ def run(ctx):
         else:
             reads = [rng.randint(1, 9) for _ in range(rng.randint(1, 5))]
         traces.append(run_case(cfg, body, reads, random_cuts(rng, 3 * len(body) + 5)))
-    for _ in range(ctx.pick(800, 30000)):
+    for _ in range(ctx.pick(400, 10000)):
         body = concretise(rng, random_body(rng) if rng.random() < 0.9 else [])
         cfg = mk_cfg(rng, "server")
         tail = rng.choice([b"", b"", b"RSET\r\n", b"XY\r\n", b"\r\n", b"RSET\r\nNOPE\r\n"])
         traces.append(run_case(cfg, body, [], random_cuts(rng, 3 * len(body) + 8), tail=list(tail)))
     # spec -> code: TLC picks body, mode, pipelined tail and segmentation and predicts every delivery's output;
     # each behaviour is performed on the real client/server and validated again by TLC below.
-    behs = ctx.simulate("SmtpDataSim", "SmtpDataSim.cfg", num=ctx.pick(150, 4000), depth=18)
+    behs = ctx.simulate("SmtpDataSim", "SmtpDataSim.cfg", num=ctx.pick(100, 2000), depth=18)
     drift = 0
     for b in behs:
         hist = b["hist"]
